@@ -15,6 +15,7 @@ import weakref
 from .. import canon, corpus
 from .. import kernel as K
 from .. import sched as S
+from .. import coldworker
 
 ID = "C15"
 ENGINE = "schedsim"
@@ -22,7 +23,7 @@ LEVEL = "exploration"
 BUDGET = {"quick": 60, "thorough": 1200}
 RUN_TIMEOUT = 150
 SELFTEST_PAIRS = {"quick": 10, "thorough": 30}
-PROBES = ["two_tasks_in_charmap_section", "exception_inside_section", "failing_input_in_history",
+PROBES = ["first_use_of_reloaded_extractor_module", "two_tasks_in_charmap_section", "exception_inside_section", "failing_input_in_history",
           "lock_contended", "sequential_history", "aes_pdf_in_workload", "mixed_formats", "archive_7z_in_workload", "systematic_switch_in_section", "cold_history"]
 RULE = ("one run = k real threads x 1-3 real extractions (or one sequential history of 2-10) under a seeded pre-emptive schedule; "
         "distinct non-trivial = distinct projection of the event log onto (task, line) events inside the char-map patch section plus "
@@ -361,6 +362,11 @@ def gen_case(rng: random.Random, tier: str) -> dict:
             "inject": None, "schedule": None}
     if rng.random() < 0.15:
         case["inject"] = {"call": rng.randrange(1, 12)}
+    if fam is not None and mode == "threads" and rng.random() < 0.5:
+        # first use: the extractor modules of these documents are re-executed before the threads start, so that whatever they build
+        # lazily on first use (compiled patterns, lookup tables, caches) is built while the threads interleave
+        case["cold_modules"] = True
+        case["p_call"] = rng.choice([1 / 2, 1 / 3, 1 / 5])
     return case
 
 
@@ -444,6 +450,7 @@ def _env_state():
         "locale": locale.setlocale(locale.LC_ALL), "umask": um, "gc_enabled": __import__("gc").isenabled(),
         "signal_handlers": [repr(signal.getsignal(sg)) for sg in (signal.SIGINT, signal.SIGTERM, signal.SIGALRM, signal.SIGPIPE)],
         "archive_config": repr(cfg),
+        "codec_registry_probe": coldworker.env_fingerprint()["codec_registry_probe"],
         "sys_path": list(sys.path),
         "environ": hashlib.sha1(repr(sorted(os.environ.items())).encode()).hexdigest(),
         "cwd": os.getcwd(),
@@ -586,12 +593,29 @@ def run_case(case: dict) -> dict:
     for ti, docs in enumerate(case["tasks"]):
         sched.add(mk(ti, docs))
 
+    extra_codes = []
+    if case.get("cold_modules"):
+        import importlib
+        from sharepoint2text.parsing import router
+        seen_mods = set()
+        for docs in case["tasks"]:
+            for n in docs:
+                try:
+                    modname = router.get_extractor(os.path.basename(n)).__module__
+                except Exception:
+                    continue
+                if modname in seen_mods or modname not in sys.modules or not modname.startswith("sharepoint2text.parsing.extractors"):
+                    continue
+                seen_mods.add(modname)
+                m2 = importlib.reload(sys.modules[modname])
+                extra_codes += S.code_objects_of(m2)
+        probes["first_use_of_reloaded_extractor_module"] = len(seen_mods)
     gc.collect()
     before = _snapshot()
     _remember_std()
     env_before = _env_state()
     ins = S.Instrument(sched)
-    call_codes = _call_codes
+    call_codes = _call_codes + extra_codes
     line_codes = list(_line_codes)
     if case.get("line_granularity"):
         from sharepoint2text.parsing.extractors.pdf import pdf_extractor as pe
